@@ -15,7 +15,8 @@ namespace IcyVerif.Term
 
 def I32MAX : Int := 2147483647
 def I32MIN : Int := -2147483648
-def sat (v : Int) : Int := if v > I32MAX then I32MAX else if v < I32MIN then I32MIN else v
+/-- clamp into the `i32` range (what `saturating_*` does) -/
+def sat (v : Int) : Int := max (-2147483648) (min 2147483647 v)
 def satAdd (a b : Int) : Int := sat (a + b)
 def satSub (a b : Int) : Int := sat (a - b)
 def satMul (a b : Int) : Int := sat (a * b)
@@ -101,7 +102,8 @@ def setMarginsLR (s : Scr) (left right : Int) : Scr :=
   { s with mlr := if left > right then none else some (left, right) }
 
 /-! ## `TerminalState::limit_caret_pos` (origin mode UpperLeftCorner, terminal buffer) -/
-def clampI (v lo hi : Int) : Int := if v < lo then lo else if v > hi then hi else v
+/-- Rust `v.clamp(lo, hi)` for `lo ≤ hi` (the case `lo > hi` panics and is guarded at every call site) -/
+def clampI (v lo hi : Int) : Int := max lo (min hi v)
 def limit (s : Scr) (c : Car) : Res Car :=
   let first := s.fv
   if first > first + s.th - 1 then .error .clampMinMax   -- Rust `clamp` asserts min <= max
@@ -109,22 +111,19 @@ def limit (s : Scr) (c : Car) : Res Car :=
 
 /-! ## caret primitives (`src/parsers/mod.rs`); content effects are dropped -/
 def checkScrollDown (s : Scr) (c : Car) (force : Bool) : Car :=
-  if (s.needsScrolling || force) && decide (c.y > s.lastEditable) then { c with y := c.y - 1 } else c
+  if (s.needsScrolling = true ∨ force = true) ∧ c.y > s.lastEditable then { c with y := c.y - 1 } else c
 
 def checkScrollUp (s : Scr) (c : Car) (force : Bool) : Car :=
-  if s.needsScrolling || force then
-    if c.y < s.firstEditable then { c with y := s.firstEditable } else c
-  else c
+  if (s.needsScrolling = true ∨ force = true) ∧ c.y < s.firstEditable then { c with y := s.firstEditable } else c
 
 def lf (s : Scr) (c : Car) : Res (Scr × Car) :=
-  let wasOoe := decide (c.y > s.lastEditable)
-  let c := { c with x := 0, y := c.y + 1 }
-  let s := if c.y + 1 > s.bh then { s with bh := c.y + 1 } else s
-  if wasOoe then
-    match limit s c with
-    | .ok c => .ok (s, c)
+  let c1 : Car := { c with x := 0, y := c.y + 1 }
+  let s1 : Scr := { s with bh := max s.bh (c1.y + 1) }   -- `if y + 1 > height { set_height(y + 1) }`
+  if c.y > s.lastEditable then          -- was_ooe, evaluated before the move
+    match limit s1 c1 with
+    | .ok c2 => .ok (s1, c2)
     | .error e => .error e
-  else .ok (s, checkScrollDown s c false)
+  else .ok (s1, checkScrollDown s1 c1 false)
 
 /-- `Caret::ff`, after the repair that drops the scrollback like `clear_screen` -/
 def ff (s : Scr) (c : Car) : Scr × Car :=
@@ -147,13 +146,13 @@ def nextLine (s : Scr) (c : Car) : Res Car := limit s (checkScrollDown s { c wit
 
 /-- `Buffer::print_char` on a terminal buffer -/
 def printChar (s : Scr) (c : Car) : Res (Scr × Car) :=
-  if c.ins && decide (c.y < 0) then .error (.negIndex "print_char insert: lines.resize(y as usize + 1)")
+  if c.ins = true ∧ c.y < 0 then .error (.negIndex "print_char insert: lines.resize(y as usize + 1)")
   else
-    let s := if c.y + 1 > s.bh then { s with bh := c.y + 1 } else s
-    let c := { c with x := c.x + 1 }
-    if c.x ≥ s.tw then
-      if s.autowrap then lf s c else .ok (s, { c with x := c.x - 1 })
-    else .ok (s, c)
+    let s1 : Scr := { s with bh := max s.bh (c.y + 1) }   -- `if y + 1 > height { set_height(y + 1) }`
+    let c1 : Car := { c with x := c.x + 1 }
+    if c1.x ≥ s1.tw then
+      if s1.autowrap = true then lf s1 c1 else .ok (s1, { c1 with x := c1.x - 1 })
+    else .ok (s1, c1)
 
 /-- `print_char` n times (REP, Avatar repeat) -/
 def printN : Nat → Scr → Car → Res (Scr × Car)
@@ -184,6 +183,7 @@ structure Par where
   macros : List (Nat × List Char) := []
   budget : Nat := 0
   tick : Nat := 0                -- index of the next oracle read
+  resized : Bool := false        -- a text-area resize (CSI 8;h;w t) was executed, possibly inside a macro
 deriving Repr, Inhabited
 
 /-- configuration that never changes during a run -/
